@@ -15,3 +15,6 @@ func (p *Prosumer) VerifPollLoop() { p.message() }
 
 // VerifPendingResponders reports how many long-poll responders are registered at the broker.
 func (b *Broker) VerifPendingResponders() int { return b.responders.Count() }
+
+// VerifSetSubscribeProxy replaces the remote "+" (subscribe) function of a Prosumer by a scripted one.
+func (p *Prosumer) VerifSetSubscribeProxy(f func(topic string) (bool, error)) { p.proxy.subscribe = f }
